@@ -1,4 +1,4 @@
-"""C13 — schema inheritance: the type checks reach every class (P-tier for check_types); the checks themselves bounded."""
+"""C13 — schema inheritance: the type checks reach every class (P-tier: check_types, check_overrides, detect_field_overrides, is_subtype as a reduction, the extra-field policy of SchemaMagic.__new__); the external subtype judgement itself bounded."""
 from . import schema_core
 
 
@@ -8,5 +8,5 @@ def build(reg):
         "verify": specs,
         "lemmas": [],
         "trusted": ["issubclass / __bases__ / typing introspection are CPython's", "get_type_hints(cls) has an entry for every own annotation of cls"] + schema_core.T_SUBTYPE,
-        "assumptions": ["check_allowed_types / check_overrides / is_subtype (runtype-, typing-based) are call-logging stubs here; their behaviour is checked bounded"],
+        "assumptions": ["check_allowed_types and the runtype-based judgement `issubclass(to_type(sub), to_type(base))` inside is_subtype are external; is_subtype is proved only to be a sound reduction to it (never True where the external judgement says no), and which shapes the judgement accepts is checked bounded"],
     }
